@@ -1,2 +1,3 @@
 import LinfaSpec.Props.C01
 import LinfaSpec.Props.C02
+import LinfaSpec.Props.C05
